@@ -24,6 +24,22 @@ use crate::interpose::FsKind;
 use crate::vt::AckEvent;
 
 static ACTIVE: AtomicBool = AtomicBool::new(false);
+/// lock-window mode: the worker also parks INSIDE its cache write-lock section,
+/// so other threads can be scheduled while the lock is held (they then block in
+/// the kernel and are handled by the blocked-thread supervision)
+static LOCK_WINDOW: AtomicBool = AtomicBool::new(false);
+
+pub fn set_lock_window(on: bool) {
+    LOCK_WINDOW.store(on, Ordering::Release);
+}
+
+fn blocked_after() -> Duration {
+    if LOCK_WINDOW.load(Ordering::Acquire) {
+        Duration::from_millis(400)
+    } else {
+        BLOCKED_AFTER
+    }
+}
 
 pub fn active() -> bool {
     ACTIVE.load(Ordering::Acquire)
@@ -180,6 +196,9 @@ pub struct Inner {
     pub violations: Vec<crate::report::Violation>,
     pub notes: Vec<String>,
     pub flags: u32,
+    need_supervisor: bool,
+    supervisor_deciding: bool,
+    last_change: Option<Instant>,
     chooser: Option<ChooserPtr>,
     over: bool,
     deadlock: Option<String>,
@@ -227,7 +246,9 @@ pub fn gate(tid: usize, mut p: Pending) -> Fault {
         slot.pending = Some(p);
         slot.state = TState::Parked;
         slot.grant = None;
-        slot.cv.clone()
+        let cv = slot.cv.clone();
+        inner.last_change = Some(Instant::now());
+        cv
     };
     // baton passing: whoever parks last makes the scheduling decision, so a
     // thread that is chosen again continues without any context switch
@@ -263,6 +284,14 @@ fn decide(inner: &mut Inner) {
     }
     // somebody already holds a grant it has not picked up yet
     if inner.slots.iter().any(|s| s.grant.is_some()) {
+        return;
+    }
+    // While a thread is blocked in the kernel it may come back at any moment;
+    // to keep the enabled sets deterministic the supervisor makes the decision
+    // after a grace period instead.
+    if !inner.supervisor_deciding && inner.slots.iter().any(|s| s.state == TState::Blocked) {
+        inner.need_supervisor = true;
+        CV_SCHED.notify_all();
         return;
     }
     let Some(chp) = inner.chooser else { return };
@@ -460,7 +489,8 @@ impl raft_log::verif_hooks::Probe for HookProbe {
                     // (done_seq is only read by wait_worker_idle, which the
                     // harness models by the WaitIdle gate; the non-flush
                     // request handlers gate at their own file-system calls)
-                    "worker.done" | "worker.nonflush" => {
+                    "worker.evictable.locked" if LOCK_WINDOW.load(Ordering::Acquire) => R_CACHE,
+                    "worker.done" | "worker.nonflush" | "worker.evictable.locked" => {
                         with_inner(|i| i.trace.push(Event::Hook { tid: t, point, a }));
                         return;
                     }
@@ -696,17 +726,36 @@ pub fn run_execution(bodies: Vec<(ThreadKind, ThreadBody)>, chooser: &mut dyn Ch
             .slots
             .iter()
             .enumerate()
-            .filter(|(_, s)| s.state == TState::Running && now.duration_since(s.running_since) > BLOCKED_AFTER)
+            .filter(|(_, s)| s.state == TState::Running && now.duration_since(s.running_since) > blocked_after())
             .map(|(t, _)| t)
             .collect();
         let running = inner.slots.iter().filter(|s| s.state == TState::Running).count();
+        // deferred decision: nobody running, grace period since the last park elapsed
+        if inner.need_supervisor && running == 0 && others_parked {
+            let quiet = inner.last_change.map(|t| now.duration_since(t) > Duration::from_millis(15)).unwrap_or(true);
+            if quiet {
+                inner.need_supervisor = false;
+                inner.supervisor_deciding = true;
+                decide(inner);
+                inner.supervisor_deciding = false;
+                continue;
+            }
+            let (ng, _) = match CV_SCHED.wait_timeout(g, Duration::from_millis(5)) {
+                Ok(x) => x,
+                Err(p) => p.into_inner(),
+            };
+            g = ng;
+            continue;
+        }
         if others_parked && !slow.is_empty() && slow.len() == running {
             for t in slow {
                 inner.slots[t].state = TState::Blocked;
                 inner.degraded = true;
                 inner.trace.push(Event::Note(format!("thread {} classified as blocked in the kernel", t)));
             }
+            inner.supervisor_deciding = true;
             decide(inner);
+            inner.supervisor_deciding = false;
             continue;
         }
         if last_progress.elapsed() > PARK_TIMEOUT {
@@ -717,7 +766,7 @@ pub fn run_execution(bodies: Vec<(ThreadKind, ThreadBody)>, chooser: &mut dyn Ch
             ));
             break;
         }
-        let (ng, _) = match CV_SCHED.wait_timeout(g, Duration::from_millis(50)) {
+        let (ng, _) = match CV_SCHED.wait_timeout(g, Duration::from_millis(20)) {
             Ok(x) => x,
             Err(p) => p.into_inner(),
         };
